@@ -1,6 +1,7 @@
 import NixModel.Lemmas.C14Exact
 import NixModel.Lemmas.C14Units
 import NixModel.Lemmas.C14Paths
+import NixModel.Lemmas.C14Guards
 import Mathlib.Data.List.Nodup
 
 /-!
@@ -27,6 +28,7 @@ Property theorems only (helper lemmas: `NixModel/Lemmas/C14*.lean`).  All statem
 namespace Nix.C14
 open Nix.Validator Nix.Validator.Gen Nix.Validator.Lemmas Nix.Units
 open Nix.Units.Lemmas (optPrefixes powerTexts)
+open Nix.PyGuard (fired fires Val)
 
 /-! ## well-formed files -/
 
@@ -776,6 +778,179 @@ theorem C14_shape_helpers :
       ("tag_units_match_refs_units", ["for ref_units in refs_units:", "for tag_unit, ref_unit in zip(tag_units, ref_units):", "if tag_unit == '' and ref_unit == '':", "continue", "if not units.scalable(tag_unit, ref_unit):", "return False", "return True"])] := by
   decide
 
+/-! ## tie to the source: the guards, compiled and evaluated
+
+`Generated/ValidatorGuards.lean` holds the conditions of the report sites compiled from the AST into `PyGuard.Expr`
+(reads, `not` / `and` / `or`, `is None`, comparisons, `len`, `units.is_atomic` / `is_si`, generators over tuples, the
+adjacent-pairs idiom); `PyGuard.eval` gives them Python's meaning (truthiness of `None`, `0`, `0.0`, `""`, `()`, an
+object of length 0; `and` / `or` returning operands; `None < 0` a TypeError).  The theorems below say: for ALL values the
+reads can return, evaluating the source's conditions yields exactly the message list of the model's check function —
+so a date at the epoch, a type `"0"`, a position `(0.0,)`, ticks `(0.0,)`, an interval `0.0` are decided by a
+kernel-checked computation over the *source's* conditions, not by a transcription.  Editing a condition in the source
+(`is None` → `not`, `<` → `<=`, `not all(a < b …)` → `any(a > b …)`) changes the generated term; the build then fails at
+the theorem of that function unless the edit is semantically neutral. -/
+
+/-- `check_entity`: the four sites, evaluated on what the entity's reads return, are `checkEntity` -/
+theorem C14_guards_entity (e : Ent) :
+    (fired (entEnv e) guards_check_entity).map (List.map Msg.plain) = .ok (checkEntity e) := guards_entity e
+
+/-- `check_file`: the date test on the file object (`none` = the attribute is missing) -/
+theorem C14_guards_file (f : File) :
+    (fired (fileEnv f) guards_check_file).map (List.map Msg.plain) = .ok (checkFileObj f) := guards_file f
+
+/-- `check_property` -/
+theorem C14_guards_property (p : Property) (i : Nat) :
+    (fired (propEnv p) guards_check_property).map (List.map (Msg.property i)) = .ok (checkProperty p i) :=
+  guards_property p i
+
+/-- `check_feature`, for a feature whose reads return (data linked to an array of `n` entries, link type a member of
+the enum; otherwise `validate()` raises, see `featureEvents`) -/
+theorem C14_guards_feature (arrays : List DataArray) (ft : Feature) (i n : Nat) (da : DataArray)
+    (hd : ft.data.bind (fun k => arrays[k]?) = some da) (hn : firstLen da.shape = some n)
+    (hl : linkTypeOk ft.linkType = true) :
+    (fired (featEnv ft n) guards_check_feature).map (List.map (Msg.feature i)) = .ok (checkFeature arrays ft i) :=
+  guards_feature arrays ft i n da hd hn hl
+
+/-- `check_range_dimension`: missing ticks, the adjacent-pairs test (`all(ti < tj …)` is `ticksSorted`), the unit -/
+theorem C14_guards_range (d : Dim) (idx : Nat) :
+    (fired (rangeEnv d) guards_check_range_dimension).map (List.map (Msg.dim · idx)) = .ok (checkRangeDim d idx) :=
+  guards_range d idx
+
+/-- `check_sampled_dimension`: `not interval` (None or 0), `interval < 0`, the unit -/
+theorem C14_guards_sampled (d : Dim) (idx : Nat) :
+    (fired (sampledEnv d) guards_check_sampled_dimension).map (List.map (Msg.dim · idx)) =
+      .ok (checkSampledDim d idx) :=
+  guards_sampled d idx
+
+/-- `check_data_array`: the two array-level sites and — for every iteration of the loop (descriptor `d` with labels
+`labels`, data length `n`, position `idx`) — the four sites of the loop body: what fires is what the model reports -/
+theorem C14_guards_array (da : DataArray) (d : Dim) (labels : List Str) (n idx : Nat) (hl : labels.length = d.nLabels) :
+    (∃ ids, fired (dimEnv da d labels n idx) (guards_check_data_array.take 2) = .ok ids ∧
+      checkDataArray da = checkEntity da.ent ++ ids.map Msg.plain ++ dimLoop 1 (da.dims.zip da.shape)) ∧
+    (∃ ids, fired (dimEnv da d labels n idx) (guards_check_data_array.drop 2) = .ok ids ∧
+      dimMsgs idx d n = ids.map (renderDim idx d.index) ++
+        (match d.kind with
+         | .range => checkRangeDim d idx
+         | .sample => checkSampledDim d idx
+         | .set => [])) := by
+  refine ⟨?_, guards_dim_loop da d labels n idx hl⟩
+  have h := guards_array_head da d labels n idx
+  cases hf : fired (dimEnv da d labels n idx) (guards_check_data_array.take 2) with
+  | error e => rw [hf] at h; cases h
+  | ok ids =>
+    rw [hf] at h
+    refine ⟨ids, rfl, ?_⟩
+    have h' : ids.map Msg.plain = (if falsy da.dataType then [.plain .NoDataType] else []) ++
+        (if da.dims.length != da.shape.length then [.plain .DimensionMismatch] else []) := by
+      simpa [Except.map] using h
+    unfold checkDataArray
+    rw [h']
+    simp only [List.append_assoc]
+
+/-- `check_tag`: the four sites whose conditions compile (missing position — a position of zeros is a position —,
+position / extent lengths, unit count against the references' descriptors, non-SI unit) fire exactly when the model
+reports them; `position` / `extent` are the stored tuples, of which the description keeps the lengths -/
+theorem C14_guards_tag (position extent : List Rat) (arrays : List DataArray) (t : Tag)
+    (hp : position.length = t.posLen) (he : extent.length = t.extLen) :
+    ∃ ids, fired (tagEnv position extent t.units t.refs.length (refArrays arrays t.refs)) guards_check_tag = .ok ids ∧
+      ∀ k ∈ [MsgId.NoPosition, .PositionExtentMismatch, .ReferenceUnitsMismatch, .InvalidUnit],
+        (k ∈ ids ↔ .plain k ∈ checkTag arrays t) := by
+  refine ⟨_, guards_tag position extent arrays t hp he, ?_⟩
+  intro k hk
+  have hne : UnitsLenMismatch t.units (refArrays arrays t.refs) → t.refs ≠ [] := by
+    rintro ⟨da, hda, -⟩ h; simp [refArrays, h] at hda
+  simp only [List.mem_cons, List.not_mem_nil, or_false] at hk
+  rcases hk with rfl | rfl | rfl | rfl
+  · rw [C14_complete_NoPosition]; simp
+  · rw [C14_complete_PositionExtentMismatch]; simp
+  · rw [C14_complete_ReferenceUnitsMismatch]
+    simp only [List.mem_append, List.mem_ite_nil_right, List.mem_singleton, reduceCtorEq, and_false, false_or,
+      or_false, true_and, Bool.and_eq_true, Bool.not_eq_true', List.isEmpty_eq_false_iff, List.any_eq_true,
+      List.mem_map, bne_iff_ne, ne_eq, UnitsLenMismatch, and_true]
+    constructor
+    · rintro ⟨-, ru, ⟨da, hda, rfl⟩, h⟩; exact ⟨da, hda, h⟩
+    · rintro ⟨da, hda, h⟩; exact ⟨hne ⟨da, hda, h⟩, _, ⟨da, hda, rfl⟩, h⟩
+  · rw [C14_complete_InvalidUnit, ← anyNonSi_iff]; simp
+
+/-- `check_multi_tag`, for a multi-tag whose shape reads return (linked arrays of rank ≥ 1): missing positions — no
+link, or a linked array without entries —, positions / extents shapes, unit count, non-SI unit -/
+theorem C14_guards_multi_tag (arrays : List DataArray) (t : MultiTag)
+    (hp : ∀ sh, MtPosShape arrays t = some sh → sh ≠ []) (he : ∀ sh, MtExtShape arrays t = some sh → sh ≠ []) :
+    ∃ ids, fired (mtagEnv (MtPosShape arrays t) (MtExtShape arrays t) t.units t.refs.length (refArrays arrays t.refs))
+        guards_check_multi_tag = .ok ids ∧
+      ∀ k ∈ [MsgId.NoPositions, .PositionsExtentsMismatch, .ReferenceUnitsMismatch, .InvalidUnit],
+        (k ∈ ids ↔ .plain k ∈ checkMultiTag arrays t) := by
+  refine ⟨_, guards_multi_tag arrays t hp he, ?_⟩
+  intro k hk
+  have hne : UnitsLenMismatch t.units (refArrays arrays t.refs) → t.refs ≠ [] := by
+    rintro ⟨da, hda, -⟩ h; simp [refArrays, h] at hda
+  simp only [List.mem_cons, List.not_mem_nil, or_false] at hk
+  rcases hk with rfl | rfl | rfl | rfl
+  · rw [C14_complete_NoPositions]
+    cases MtExtShape arrays t <;> cases hps : MtPosShape arrays t <;> simp
+  · rw [C14_complete_PositionsExtentsMismatch]
+    cases MtExtShape arrays t <;> cases hps : MtPosShape arrays t <;> simp
+  · rw [(C14_complete_mtag_units arrays t).1]
+    cases MtExtShape arrays t <;>
+    simp only [List.mem_append, List.mem_ite_nil_right, List.mem_singleton, reduceCtorEq, and_false, false_or,
+      or_false, true_and, Bool.and_eq_true, Bool.not_eq_true', List.isEmpty_eq_false_iff, List.any_eq_true,
+      List.mem_map, bne_iff_ne, ne_eq, UnitsLenMismatch, List.not_mem_nil, and_self, and_true]
+    all_goals
+      constructor
+      · rintro ⟨-, ru, ⟨da, hda, rfl⟩, h⟩; exact ⟨da, hda, h⟩
+      · rintro ⟨da, hda, h⟩; exact ⟨hne ⟨da, hda, h⟩, _, ⟨da, hda, rfl⟩, h⟩
+  · rw [(C14_complete_mtag_units arrays t).2.2, ← anyNonSi_iff]
+    cases MtExtShape arrays t <;> simp
+
+/-- which sites are NOT compiled (their conditions iterate over referenced arrays or call the verdict helper): they stay
+tied by `C14_shape_tag` / `C14_shape_multi_tag` / `C14_shape_helpers`; every other site of every function is compiled -/
+theorem C14_guards_opaque :
+    opaque_check_tag = [.PositionDimensionMismatch, .ExtentDimensionMismatch, .ReferenceUnitsIncompatible] ∧
+    opaque_check_multi_tag = [.PositionsDimensionMismatch, .ExtentsDimensionMismatch, .ReferenceUnitsIncompatible] ∧
+    opaque_check_file = [] ∧ opaque_check_entity = [] ∧ opaque_check_feature = [] ∧ opaque_check_property = [] ∧
+    opaque_check_data_array = [] ∧ opaque_check_range_dimension = [] ∧ opaque_check_sampled_dimension = [] := by
+  decide
+
+/-- compiled + opaque sites are all the report sites of the source, function by function -/
+theorem C14_guards_cover :
+    reportSites.map (fun s => (s.1, s.2.1)) =
+      (guards_check_file.map fun g => ("check_file", g.1)) ++
+      ((guards_check_data_array.map fun g => ("check_data_array", g.1)) ++
+      ((["check_tag"].flatMap fun fn => [(fn, MsgId.NoPosition), (fn, .PositionExtentMismatch),
+          (fn, .PositionDimensionMismatch), (fn, .ExtentDimensionMismatch), (fn, .ReferenceUnitsMismatch),
+          (fn, .ReferenceUnitsIncompatible), (fn, .InvalidUnit)]) ++
+      ((["check_multi_tag"].flatMap fun fn => [(fn, MsgId.NoPositions), (fn, .PositionsExtentsMismatch),
+          (fn, .PositionsDimensionMismatch), (fn, .ExtentsDimensionMismatch), (fn, .ReferenceUnitsMismatch),
+          (fn, .ReferenceUnitsIncompatible), (fn, .InvalidUnit)]) ++
+      ((guards_check_feature.map fun g => ("check_feature", g.1)) ++
+      ((guards_check_property.map fun g => ("check_property", g.1)) ++
+      ((guards_check_range_dimension.map fun g => ("check_range_dimension", g.1)) ++
+      ((guards_check_sampled_dimension.map fun g => ("check_sampled_dimension", g.1)) ++
+      (guards_check_entity.map fun g => ("check_entity", g.1))))))))) ∧
+    ((guards_check_tag.map (·.1)) ++ opaque_check_tag).length = 7 ∧
+    (∀ k ∈ [MsgId.NoPosition, .PositionExtentMismatch, .PositionDimensionMismatch, .ExtentDimensionMismatch,
+          .ReferenceUnitsMismatch, .ReferenceUnitsIncompatible, .InvalidUnit],
+      k ∈ (guards_check_tag.map (·.1)) ++ opaque_check_tag) ∧
+    ((guards_check_multi_tag.map (·.1)) ++ opaque_check_multi_tag).length = 7 ∧
+    (∀ k ∈ [MsgId.NoPositions, .PositionsExtentsMismatch, .PositionsDimensionMismatch, .ExtentsDimensionMismatch,
+          .ReferenceUnitsMismatch, .ReferenceUnitsIncompatible, .InvalidUnit],
+      k ∈ (guards_check_multi_tag.map (·.1)) ++ opaque_check_multi_tag) := by
+  refine ⟨by decide, by decide, by decide, by decide, by decide⟩
+
+/-- the locals the compiled conditions read, and the statements that assign them: `positions` / `file_created_at` are
+the read, or `None` when the read raises (what `linkedVal none` / `ofOptInt none` stand for); `refs_units` the
+dimension units of every referenced array (`refs.map getDimUnits`, `C14_shape_helpers`) -/
+theorem C14_guards_locals :
+    localDefs = [
+      ("check_file", "file_created_at", ["try: file_created_at = nixfile.created_at", "except KeyError: file_created_at = None"]),
+      ("check_tag", "refs_units", ["if tag.references: refs_units = [get_dim_units(da) for da in tag.references]"]),
+      ("check_multi_tag", "refs_units", ["if mtag.references: refs_units = [get_dim_units(da) for da in mtag.references]"]),
+      ("check_multi_tag", "positions", ["try: positions = mtag.positions", "except RuntimeError: positions = None"])] ∧
+    siteLoops.map (fun s => (s.1, s.2.1)) = [("check_data_array", .InvalidDimensionIndex),
+      ("check_data_array", .IncorrectDimensionIndex), ("check_data_array", .RangeDimTicksMismatch),
+      ("check_data_array", .SetDimLabelsMismatch)] := by
+  decide
+
 /-! ## "no ID set": never reported for an entity (genuine defect, known finding) -/
 
 /-- full statement: validating reports "no ID set" for an object iff its id is missing -/
@@ -920,5 +1095,33 @@ example :
     validate { sampleFile with blocks := sampleFile.blocks.map fun b =>
       { b with mtags := [{ ent := b.ent, positions := none, extents := none, units := [], refs := [], features := [] }] } }
       = .ok [(⟨.mtag, [0, 0]⟩, [.plain .NoPositions])] := by decide +kernel
+
+/-- boundary VALUES are not missing values: an entity dated at the epoch, with type `"0"` and name `" "`, fires no
+site of `check_entity`; a file dated at the epoch none of `check_file`; the same with the date really absent fires -/
+example :
+    fired (entEnv { type_ := some ['0'], id := some ['i'], idUuid := true, name := some [' '], createdAt := some 0 })
+      guards_check_entity = .ok [] ∧
+    fired (fileEnv { createdAt := some 0, blocks := [], sections := [] }) guards_check_file = .ok [] ∧
+    fired (fileEnv { createdAt := none, blocks := [], sections := [] }) guards_check_file = .ok [.NoDate] ∧
+    fired (entEnv { type_ := some [], id := some ['i'], idUuid := true, name := none, createdAt := none })
+      guards_check_entity = .ok [.NoType, .NoName, .NoDate] := by
+  refine ⟨?_, ?_, ?_, ?_⟩ <;> rfl
+
+/-- a position `(0.0,)` with extent `(0.0,)` is a position; ticks `(0.0,)` are ticks; ticks `(-0.0, 0.0)` (equal as
+numbers) are not sorted; an interval of `0` is "not set", a tiny negative one invalid, a tiny positive one fine -/
+example :
+    fired (tagEnv [0] [0] [] 0 []) guards_check_tag = .ok [] ∧
+    fired (tagEnv [] [] [] 0 []) guards_check_tag = .ok [.NoPosition] ∧
+    fired (rangeEnv { kind := .range, index := 1, ticks := [0], nLabels := 0, interval := none, unit := some [] })
+      guards_check_range_dimension = .ok [] ∧
+    fired (rangeEnv { kind := .range, index := 1, ticks := [0, 0], nLabels := 0, interval := none, unit := none })
+      guards_check_range_dimension = .ok [.UnsortedTicks] ∧
+    fired (sampledEnv { kind := .sample, index := 1, ticks := [], nLabels := 0, interval := some 0, unit := none })
+      guards_check_sampled_dimension = .ok [.NoSamplingInterval] ∧
+    fired (sampledEnv { kind := .sample, index := 1, ticks := [], nLabels := 0, interval := some (-1/1000000), unit := none })
+      guards_check_sampled_dimension = .ok [.InvalidSamplingInterval] ∧
+    fired (sampledEnv { kind := .sample, index := 1, ticks := [], nLabels := 0, interval := some (1/1000000), unit := none })
+      guards_check_sampled_dimension = .ok [] := by
+  refine ⟨?_, ?_, ?_, ?_, ?_, ?_, ?_⟩ <;> decide +kernel
 
 end Nix.C14
